@@ -32,7 +32,7 @@ class ZSeries:
 
     def _index(self, i: Any):
         if isinstance(i, SInt):
-            it = i.t
+            it = z3.simplify(i.t)   # canonical linear form: t-1 and (t+1)-2 become the same term
         elif isinstance(i, (int,)) and not isinstance(i, bool):
             it = z3.IntVal(i)
         else:
